@@ -568,6 +568,20 @@ func init() {
 			c.Run(kBedFile, L(bedVal(b), bedVal(b)), true, "file/zero-record")
 		}
 		c.Run(kBedFile, L(), false, "file/empty")
+		// long lines: past bufio's 4096-byte buffer and past 64 KiB (a reader that
+		// only handles lines that fit a buffer breaks here)
+		for _, ln := range []int{4000, 4090, 4095, 4096, 4097, 8192, 65535, 65536, 70000} {
+			n := 4 + c.Intn(9)
+			b := c.bedRecord(n)
+			b.Name = string(c.RandBytes(ln, []byte("abcXYZ\"#,;' ")))
+			small := c.bedRecord(n)
+			c.Run(kBedFile, L(bedVal(small), bedVal(b), bedVal(small)), true, "file/long-line", fmt.Sprintf("file/long-line-%d", ln))
+		}
+		for _, blocks := range []int{300, 450, 1200, 9000} {
+			b := c.bedRecord(12)
+			b.BlockCount, b.BlockSizes, b.BlockStarts = blocks, c.bedInts(blocks), c.bedInts(blocks)
+			c.Run(kBedFile, L(bedVal(b), bedVal(c.bedRecord(12))), true, "file/long-line", fmt.Sprintf("file/many-blocks-%d", blocks))
+		}
 		// 2. N outside 3..12
 		for _, n := range []int{-1, 0, 1, 2, 13, 14, 100, -12, math.MaxInt64, math.MinInt64} {
 			for i := 0; i < c.Pick(5, 40); i++ {
